@@ -373,5 +373,6 @@ package state
 //@   props C01 C05
 //@   requires es != nil
 //@   modifies nothing
+//@   loop 1 invariant arrOf(eligibleEntities) == nil || fresh(arrOf(eligibleEntities))
 //@   ensures err == nil ==> ordDet(result0)
 //@   note entities eligible for the epoch-signing reward are collected from a Go map and returned sorted: rewards are paid in an order that is a function of state
